@@ -4,7 +4,7 @@ with the change applied (YPV_REPO), and record whether it is caught.
 usage: tools/run_seeded.py [ids...]   (default: all of seeded/*)"""
 import json, os, subprocess, sys, time
 V = os.path.dirname(os.path.dirname(os.path.abspath(__file__)))
-ids = sys.argv[1:] or sorted(os.listdir(os.path.join(V, "seeded")))
+ids = sys.argv[1:] or sorted(x for x in os.listdir(os.path.join(V, "seeded")) if os.path.isdir(os.path.join(V, "seeded", x)))
 wt = "/tmp/seedtest-%d" % os.getpid()
 subprocess.run(["git", "-C", "/repo", "worktree", "add", "-q", "--detach", wt, "HEAD"], check=True)
 results = {}
